@@ -47,11 +47,9 @@ class Ctx:
         from .core import fresh_name
         f = z3.Function(fresh_name("F_" + name), *(list(arg_sorts) + [ret_sort]))
         xs = [z3.Const("x%d_%s" % (i, name), srt) for i, srt in enumerate(arg_sorts)]
-        pats = [f(*xs)] + (list(extra_patterns(*xs)) if extra_patterns else [])
-        try:
-            ax = z3.ForAll(xs, f(*xs) == body(*xs), patterns=pats)
-        except z3.Z3Exception:      # an explicit post-state term is not a legal trigger (contains ite)
-            ax = z3.ForAll(xs, f(*xs) == body(*xs), patterns=[f(*xs)])
+        from .core import legal_pattern
+        pats = [f(*xs)] + [p_ for p_ in (extra_patterns(*xs) if extra_patterns else []) if legal_pattern(p_)]
+        ax = z3.ForAll(xs, f(*xs) == body(*xs), patterns=pats)
         self.eng.cur_facts.append(ax)
         memo[key] = f
         return f
